@@ -778,6 +778,11 @@ class ConditionBinaryOp(ConditionLike):
         return null_condition_binary_check(*conditions) or super().__new__(cls)
 
     def __init__(self, *conditions):
+        if null_condition_binary_check(*conditions) is not None:
+            # `__new__` returned one of the (already initialised) operands; Python still
+            # calls `__init__` on it when it is an instance of this class.
+            return
+
         super().__init__()
 
         self.children = conditions
